@@ -386,12 +386,15 @@ def rule_bracearm(text, arg):
 def rule_nameiter(text, arg):
     """R16: `for x in EXPR` (selected by the token prefix `for x in`) becomes `for x in it: EXPR` - Verus names the ghost iterator so
     that loop invariants can mention it; no executable token changes"""
+    name = "it"
+    if "=>" in arg:
+        arg, name = [x.strip() for x in arg.split("=>")]
     pat = rs.norm(arg)
     toks = _tok(text)
     for j in range(len(toks) - len(pat)):
         if [t.text for t in toks[j:j + len(pat)]] == pat:
             k = j + len(pat)
-            return _splice(text, [(toks[k].start, toks[k].start, "it: ")]), 1, "ghost iterator of `%s` named `it`" % arg
+            return _splice(text, [(toks[k].start, toks[k].start, name + ": ")]), 1, "ghost iterator of `%s` named `%s`" % (arg, name)
     raise TransplantError("R16: loop `%s` not found" % arg)
 
 
@@ -528,19 +531,29 @@ def _align(tmpl_toks, real_toks):
                 return j2
         return len(real_toks)
 
+    def deleted(i):
+        """the template token just before position i lies in a span of template tokens that has NO counterpart in the real text
+        (an annotation block is attached to the code it follows: loop head -> invariants, `{` -> ghost lets, statement -> proof block)"""
+        for tag, i1, i2, j1, j2 in ops:
+            if tag == "delete" and i1 <= i - 1 < i2:
+                return True
+        return False
+
+    pos.deleted = deleted
     return pos, ops
 
 
 class _Block:
-    """a `{ .. }` block inside a function, presented like an Item"""
-    def __init__(self, src, start, end):
-        self.src, self.start, self.end = src, start, end
+    """a `{ .. }` block inside a function, presented like an Item; with `upto`, the block is cut before the statement that starts with
+    the given token prefix and closed with a synthetic `}` (the statements after the cut are not part of the verified text)"""
+    def __init__(self, src, start, end, cut=False):
+        self.src, self.start, self.end, self.cut = src, start, end, cut
         self.attrs_text = ""
         self.headers = []
 
     @property
     def text(self):
-        return self.src[self.start:self.end]
+        return self.src[self.start:self.end] + ("}" if self.cut else "")
 
     @property
     def line(self):
@@ -563,6 +576,17 @@ def _find_block(src, attrs):
     if k >= len(toks):
         raise rs.ScanError("no block after `%s`" % attrs["prefix"])
     close = rs.match_close(toks, k)
+    if "upto" in attrs:
+        up = rs.norm(attrs["upto"])
+        depth = 0
+        for j in range(k + 1, close):
+            if toks[j].text in "([{":
+                depth += 1
+            elif toks[j].text in ")]}":
+                depth -= 1
+            elif depth == 0 and [t.text for t in toks[j:j + len(up)]] == up:
+                return _Block(src, base + toks[k].start, base + toks[j].start, cut=True)
+        raise rs.ScanError("`upto` prefix `%s` not found at the top level of the block after `%s`" % (attrs["upto"], attrs["prefix"]))
     return _Block(src, base + toks[k].start, base + toks[close].end)
 
 
@@ -619,7 +643,7 @@ def expand(template_text, repo_root, read=None):
         fired = []
         if kw == "block":
             fired.append({"rule": "B1", "n": 1, "note": "block `{ .. }` following `%s` inside fn %s verified as the body of a function whose header (parameters = the variables "
-                                                         "the block uses, with their types) is supplied by the template; the statement header itself is not verified" % (attrs["prefix"], attrs["fn"])})
+                                                         "the block uses, with their types) is supplied by the template; the statement header itself is not verified%s" % (attrs["prefix"], attrs["fn"], ("; the block is cut before `%s`: the statements from there on are not part of the verified text" % attrs["upto"]) if "upto" in attrs else "")})
         if item.attrs_text.strip():
             fired.append({"rule": "R1", "n": 1, "note": "attributes dropped: " + " ".join(item.attrs_text.split())})
         rules_s = attrs.get("rules", "")
@@ -641,7 +665,19 @@ def expand(template_text, repo_root, read=None):
         pos, ops = _align(t_toks, r_toks)
         identical = t_toks == r_toks
         inserts = {}
+        dropped_blocks = []
         for (n_before, ann) in blocks:
+            if n_before == len(t_toks) - 1 and len(r_tokobjs) >= 1:
+                # an annotation block right before the closing token of the item (a final obligation): it stays right before the closing
+                # token of the real item, whatever the alignment did with the braces in between
+                off = r_tokobjs[-2].end if len(r_tokobjs) >= 2 else 0
+                inserts.setdefault(off, []).append(ann)
+                continue
+            if pos.deleted(n_before):
+                # the code this annotation block sat in was deleted on this tree: the block goes with it (the contract of the item stays,
+                # so what the deleted code was needed for now fails as a postcondition / invariant instead of as a syntax error)
+                dropped_blocks.append(" ".join(ann.split())[:100])
+                continue
             p = pos(n_before)
             off = r_tokobjs[p - 1].end if p > 0 else 0
             inserts.setdefault(off, []).append(ann)
@@ -656,5 +692,6 @@ def expand(template_text, repo_root, read=None):
         diffs = [(tag, " ".join(t_toks[i1:i2])[:120], " ".join(r_toks[j1:j2])[:120]) for tag, i1, i2, j1, j2 in ops if tag != "equal"]
         report.append({"item": "%s %s" % (kw, name), "file": path, "line": item.line, "impl": attrs.get("impl"),
                        "sha256": hashlib.sha256(item.text.encode()).hexdigest()[:16], "tokens": len(r_toks),
-                       "annotation_blocks": len(blocks), "rules": fired, "identical": identical, "differences": diffs[:20]})
+                       "annotation_blocks": len(blocks), "rules": fired, "identical": identical, "differences": diffs[:20],
+                       "annotation_blocks_dropped_with_deleted_code": dropped_blocks})
     return "\n".join(out), report
